@@ -1,8 +1,9 @@
 //go:build verif
 
 // Package expect is a synchronous, virtual-time stand-in for
-// github.com/tailscale/goexpect, applied with `go build -overlay` when the
-// verification driver is built (never part of the repository's own build).
+// github.com/tailscale/goexpect, selected by the `replace` directive of
+// verif/harness/go.mod when the verification driver is built (never part of
+// the repository's own build, which keeps the real module).
 // It implements exactly the five symbols pkg/console uses.  The other end
 // of the "connection" is a Peer supplied by the harness.
 package expect
